@@ -26,3 +26,12 @@ add("C05", "exploration", "high-water-mark model on sequential signed RPCs; porc
 add("C07", "fault_enumeration", "conservation + per-withdrawal oracle over settle-handler event log with settlement failing at every attempt; porcupine on racing withdrawals",
     "Sequential accrue/withdraw histories with the settlement failing at attempt k for each k; racing withdrawals with the settle handler holding the window open; paid = balance - fee once, nothing left, failed/refused => nothing paid and unchanged.",
     "Settle handler modelled as the contract's OpSettle (replaces the deposit); constant fees only configured with a minimum above the fee, as pool.go does.")
+add("C08", "exploration", "eligible/acknowledged-set oracle over generated pool populations with logical ack stamps recorded by fake hosts",
+    "Generated populations (kind, freshness, connection, already-peered, whitelist behaviour incl. errors/delays/timeouts), requested counts incl. negative and legacy default, MaxRequestHosts; every returned host must be eligible and have acknowledged before the reply; count bounds; exact count when all are healthy.",
+    "Freshness injected >=10 s from the window; timeout hosts cost the constant 5 s and are a fixed share.")
+add("C09", "exploration", "shadow-registry invariant checked after every event of exhaustively enumerated connect/reconnect/close sequences, plus racing rounds",
+    "All event sequences up to a length bound over 1 and 2 hosts with a probe after each event: which connection object receives vipnode_whitelist and NumRemotes vs a shadow registry; racing closes/reconnects vs in-flight requests checked at quiescence.",
+    "Connections are in-memory codecs closed the way server.go does (serve loop ends, then CloseRemote); exhaustive only up to the stated length bounds.")
+add("C19", "exploration", "parse-back oracle on stored and handed-out node URIs over a source-address x override grid",
+    "Every (endpoint, source address class, override class): accepted registrations must parse back (ethnode.ParseNodeURI + net.SplitHostPort) to the authenticated id, supplied-or-source host and supplied-or-30303 port; undeterminable addresses refused.",
+    "Exotic overrides only need to keep the id binding and not crash.")
